@@ -179,6 +179,8 @@ func c13RealOf(style, i, arity int) jen.Code {
 		return jen.Comment(fmt.Sprintf("c%d", i))
 	case style == 3:
 		return jen.Id(fmt.Sprintf("x%d", i)).Comment("t")
+	case style == 4 && i == 0, style == 5 && i == arity-1 && arity > 1:
+		return jen.Line() // a bare line break as an item of its own (first / last)
 	}
 	return jen.Id(fmt.Sprintf("x%d", i))
 }
@@ -357,18 +359,18 @@ func runC13(r *ev.Recorder) {
 		nn = append(nn, n.name)
 	}
 	r.Rule = fmt.Sprintf("list constructs discovered by reflection over *Statement's method set at check time (%d: every variadic ...Code builder, its ...Func variant, Custom/CustomFunc with 6 option shapes incl. multi-line without opening token): %v. "+
-		"(a) injection: arities 0..%d (real items: identifiers; for arities 1..3 also with a line comment as last / first item and with a trailing comment on every item); at every slot (before, between, after the real items) up to 2 null items of %d kinds %v, with at most %d injected items per case (choice-point explorer); oracle: raw rendering identical to the one without injections (differential, fresh objects). "+
+		"(a) injection: arities 0..%d (real items: identifiers; for arities 1..3 also with a line comment as last / first item, with a trailing comment on every item, and with a bare Line() as first / last item); at every slot (before, between, after the real items) up to 2 null items of %d kinds %v, with at most %d injected items per case (choice-point explorer); oracle: raw rendering identical to the one without injections (differential, fresh objects). "+
 		"also arities 8, 17, 40, 130 with one null item at every slot and with null items at all slots, and arities 260, 520, ..., 4160 with null items at all slots / first / middle / last (real and total item counts straddle every size up to 4160). (b) Empty() - alone and at the end of statements made of null items only (Null().Empty(), Add(nil).Empty(), List().Empty(), Empty().Null()) -: at every position of every arity 1..%d; oracle: raw bytes equal those with an identifier in its place after deleting the identifier. "+
 		"(c) re-render: a placeholder item (Null() or a token-less &Statement{}; bare, or inside List/Union/Add/Custom/Types) that is null at the first render and real at the second, and vice versa; each render must equal a freshly built list. "+
 		"(d) one argument slice with nil entries spread into two constructs (every ordered pair of constructs x every nil placement): both render as if built privately, twice, and the caller's slice is unchanged. "+
-		"(f) every ordered pair of ...Func constructs built with g.Null() placeholders: filling the first one's placeholder afterwards changes only the first. (e) program level: real programs of the corpus, translated into the DSL with null items injected at every list-construct site under 3 uniform policies, must re-parse to the same syntax tree. distinct_nontrivial = distinct (construct, item list) cases with at least one injected/Empty/placeholder item", len(c13Constructs), cn, maxArity, len(c13Nulls), nn, dev, maxArity)
+		"(g) Add(nil) / Null() / Tag(nil) / Add(List()) appended inside items (after their last token, also after a line comment): same rendering as without. (f) every ordered pair of ...Func constructs built with g.Null() placeholders: filling the first one's placeholder afterwards changes only the first. (e) program level: real programs of the corpus, translated into the DSL with null items injected at every list-construct site under 3 uniform policies, must re-parse to the same syntax tree. distinct_nontrivial = distinct (construct, item list) cases with at least one injected/Empty/placeholder item", len(c13Constructs), cn, maxArity, len(c13Nulls), nn, dev, maxArity)
 	r.Assume = []string{"an empty Types() used as a list item is not in the property's list of vanishing items and is not injected; a Dict without any renderable pair is (it is built only from null items)", "program level: every 12th corpus file in the quick tier, every file in the thorough tier"}
 
 	for ci, lc := range c13Constructs {
 		ci, lc := ci, lc
 		for arity := 0; arity <= maxArity; arity++ {
 			arity := arity
-			for style := 0; style < 4; style++ {
+			for style := 0; style < 6; style++ {
 				if style > 0 && (arity == 0 || arity > 3) {
 					continue
 				}
@@ -469,6 +471,39 @@ func runC13(r *ev.Recorder) {
 						r.Violate(ev.Violation{Signature: "c13:rerender:" + c13Wraps[wi].name, What: d + ": " + msg.String(),
 							Case: ev.JSON(c13Case{Kind: "rerender", Construct: ci, Wrap: wi, Pos: map[bool]int{true: 1, false: 0}[nullFirst] + 2*phKind, Desc: d}), Detail: msg.String()})
 					}
+				}
+			}
+		}
+		// (g) null items appended INSIDE an item, after its last token (also after a line comment):
+		// the list renders as without them
+		for _, tail := range []struct {
+			name string
+			add  func(s *jen.Statement)
+		}{
+			{"Add(nil)", func(s *jen.Statement) { s.Add(nil) }}, {"Null()", func(s *jen.Statement) { s.Null() }},
+			{"Tag(nil)", func(s *jen.Statement) { s.Tag(nil) }}, {"Add(List())", func(s *jen.Statement) { s.Add(jen.List()) }},
+		} {
+			for _, withComment := range []bool{false, true} {
+				mk := func(withTail bool) jh.Outcome {
+					var items []jen.Code
+					for i := 0; i < 3; i++ {
+						it := jen.Id(fmt.Sprintf("x%d", i))
+						if withComment && i < 2 {
+							it.Comment("c")
+						}
+						if withTail && i < 2 {
+							tail.add(it)
+						}
+						items = append(items, it)
+					}
+					return c13RenderStmt(lc.build(items))
+				}
+				got, want := mk(true), mk(false)
+				r.Eval(1)
+				d := fmt.Sprintf("%s: %s appended inside the first two of three items (items end in a line comment: %v)", lc, tail.name, withComment)
+				r.Distinct(d)
+				if got.Key() != want.Key() {
+					r.Violate(ev.Violation{Signature: "c13:null-inside-item:" + lc.name, What: fmt.Sprintf("%s renders %q, without them %q", d, got, want), Case: ev.JSON(c13Case{Kind: "groupnull", Construct: ci, Desc: d})})
 				}
 			}
 		}
